@@ -74,13 +74,15 @@ def _imageformation_body(S, coord):
     c, cfgs = _configs(S)
     xs = [S.real('x0'), S.real('x1')]
     ys = [S.real('y0'), S.real('y1')]
+    zs = [S.real('zdet0'), S.real('zdet1')]          # detector points off the z = 0 plane
     ctr = [S.real('cx'), S.real('cy'), S.real('cz')]
     r = S.real('r', pos=True)
     logs = {}
     fields = {}
     for label, mult, (n, nm, lam) in cfgs:
         log = []
-        det = detector_points(x=_arr(S, [mult * x for x in xs]), y=_arr(S, [mult * y for y in ys]), z=0.0)
+        det = detector_points(x=_arr(S, [mult * x for x in xs]), y=_arr(S, [mult * y for y in ys]),
+                              z=_arr(S, [mult * z for z in zs]))
         sph = Sphere(n=n, r=mult * r, center=[mult * v for v in ctr])
         f = calc_field(det, sph, medium_index=nm, illum_wavelen=lam, illum_polarization=(1, 0),
                        theory=Rec(S, coord, log))
@@ -88,6 +90,25 @@ def _imageformation_body(S, coord):
         fields[label] = f.values
     ref = logs['reference']
     S.observe('pos', ref['pos'])
+    # the kernel position arguments themselves, against the documented convention
+    # (lengths in units of 1/k, z measured from the detector point towards the particle)
+    n, nm, lam = cfgs[0][2]
+    k = 2 * (S.pi if S.sym else np.pi) * nm / lam
+    for i in range(2):
+        dx, dy, dz = xs[i] - ctr[0], ys[i] - ctr[1], ctr[2] - zs[i]
+        if coord == 'cylindrical':
+            S.claim_eq(f'reference.rho2[{i}]', ref['pos'][0][i] ** 2, k * k * (dx * dx + dy * dy))
+            S.claim_eq(f'reference.kz[{i}]', ref['pos'][2][i], k * dz)
+            S.claim_eq(f'reference.rho_cos_phi[{i}]', ref['pos'][0][i] * np.cos(ref['pos'][1][i]), k * dx)
+            S.claim_eq(f'reference.rho_sin_phi[{i}]', ref['pos'][0][i] * np.sin(ref['pos'][1][i]), k * dy)
+        else:
+            rr = ref['pos'][0][i]
+            S.claim_eq(f'reference.r2[{i}]', rr ** 2, k * k * (dx * dx + dy * dy + dz * dz))
+            S.claim_eq(f'reference.r_cos_theta[{i}]', rr * np.cos(ref['pos'][1][i]), k * dz)
+            rho_xy = np.sqrt(k * k * (dx * dx + dy * dy))
+            S.claim_eq(f'reference.r_sin_theta[{i}]', rr * np.sin(ref['pos'][1][i]), rho_xy)
+            S.claim_eq(f'reference.rho_cos_phi[{i}]', rho_xy * np.cos(ref['pos'][2][i]), k * dx)
+            S.claim_eq(f'reference.rho_sin_phi[{i}]', rho_xy * np.sin(ref['pos'][2][i]), k * dy)
     for label in ('rescaled', 'index_normalised'):
         got = logs[label]
         S.claim_eq(f'{label}.positions', got['pos'], ref['pos'])
@@ -285,3 +306,44 @@ def tmatrix_args(S):
             for key in ('ratio', 'mrr', 'mri', 'eps', 'alpha', 'beta', 'thet', 'phi'):
                 S.claim_eq(f'{shape}.{label}.{key}', got[label][key], got['reference'][key])
             S.claim(f'{shape}.{label}.np', got[label]['np_'] == got['reference']['np_'])
+
+
+@obligation('C04.lens.inner_theory_arguments', functions=['holopy.scattering.theory.lens.Lens._calc_scattering_matrix'],
+            stubs=['inner theory raw_scat_matrs := argument recorder'], nvalid=2,
+            bounds='Lens wrapper with 2x2 quadrature nodes: the wrapped theory receives the medium wavevector and medium '
+                   'index it was given (so its size parameter k*r and relative index n/n_m are unchanged by the length '
+                   'scale and the index normalisation)')
+def lens_inner_arguments(S):
+    import holopy.scattering.theory.lens as lens_mod
+    from holopy.scattering.theory.lens import Lens
+    if S.sym:
+        shim_np(S, lens_mod)
+    rec = []
+
+    class Inner:
+        def can_handle(self, s):
+            return True
+
+        def raw_scat_matrs(self, scatterer, pos, medium_wavevec, medium_index):
+            rec.append(dict(x=medium_wavevec * scatterer.r, m=scatterer.n / medium_index, k=medium_wavevec,
+                            nm=medium_index, theta=pos[1], phi=pos[2]))
+            return np.zeros((pos.shape[1], 2, 2), dtype=complex)
+    lens = Lens.__new__(Lens)
+    lens.theory = Inner()
+    lens.quad_npts_theta = lens.quad_npts_phi = 2
+    lens._theta_pts = np.array([0.2, 0.5]).reshape(-1, 1, 1)
+    lens._phi_pts = np.array([0.0, np.pi]).reshape(1, -1, 1)
+    c, cfgs = _configs(S)
+    r = S.real('r', pos=True)
+    got = {}
+    for label, mult, (n, nm, lam) in cfgs:
+        k = 2 * (S.pi if S.sym else np.pi) / (lam / nm)
+        del rec[:]
+        lens._calc_scattering_matrix(Sphere(n=n, r=mult * r, center=(0, 0, 0)), k, nm)
+        got[label] = rec[0]
+        S.claim_eq(f'{label}.wavevector_passed_through', rec[0]['k'], k)
+        S.claim_eq(f'{label}.medium_index_passed_through', rec[0]['nm'], nm)
+    S.observe('x', got['reference']['x'])
+    for label in ('rescaled', 'index_normalised'):
+        S.claim_eq(f'{label}.size_parameter', got[label]['x'], got['reference']['x'])
+        S.claim_eq(f'{label}.relative_index', got[label]['m'], got['reference']['m'])
